@@ -8,6 +8,8 @@
 (*            after it, what the edit found                                *)
 (*   Rebuilt  hook H1: Hello.Raw right after the internal                  *)
 (*            BuildHandshakeState of Handshake (the bytes)                 *)
+(*   AtSend   hook H2 on the client: a ClientHello message goes to the     *)
+(*            record layer; Hello.Raw at that moment                       *)
 (*   Rec k    k-th handshake record the client handed to the transport     *)
 (*            (first four bytes and length as numbers)                     *)
 (*   SH       a ServerHello / HelloRetryRequest the server sent            *)
@@ -25,7 +27,8 @@
 EXTENDS UConnBuild, Json
 Trace == ndJsonDeserialize("uconn_trace.ndjson")
 
-VARIABLES l, rej, scn, stats
+VARIABLES l, rej, scn, stats,
+          atsend   \* Hello.Raw as the client's outgoing-message hook saw it when the next ClientHello was written
 NoScn == [sc |-> -1, cls |-> "", ops |-> <<>>]
 
 StatKeys == {"random", "sid", "suites", "sni", "nosni", "ext", "noext", "front",
@@ -33,11 +36,12 @@ StatKeys == {"random", "sid", "suites", "sni", "nosni", "ext", "noext", "front",
              "ExtInsert", "ExtRemove", "ExtALPN", "unprotected", "scn", "ch1", "ch2", "hrr", "hrr_cookie", "done", "done_hrr", "failed", "rebuilt", "seeded", "psk"}
 Bump(ks) == stats' = [k \in StatKeys |-> stats[k] + (IF k \in ks THEN 1 ELSE 0)]
 
-Init == /\ l = 1 /\ rej = {} /\ scn = NoScn /\ stats = [k \in StatKeys |-> 0]
+Init == /\ l = 1 /\ rej = {} /\ scn = NoScn /\ stats = [k \in StatKeys |-> 0] /\ atsend = NoSer
         /\ Init0("")
 
 \* ---- what the specification has against the current state
-Viol == (IF ~WireIsRaw THEN {<<scn.sc, "WireIsRaw", "first-hello-differs-from-rebuilt-raw">>} ELSE {})
+Viol == (IF ~WireIsRaw THEN {<<scn.sc, "WireIsRaw", IF wire[1].id # rebuilt.id THEN "first-hello-differs-from-rebuilt-raw"
+                                                     ELSE "hello-differs-from-raw-when-written">>} ELSE {})
    \cup (IF ~EditsVisible THEN {<<scn.sc, "EditsVisible", c.kind>> : c \in Broken(rebuilt.img, pending)} ELSE {})
    \cup (IF ~RawIsLastSent THEN {<<scn.sc, "RawIsLastSent",
                                    IF Len(wire) = 0 THEN "no-hello-sent" ELSE IF raw.id # wire[Len(wire)].id THEN "raw-differs-from-last-hello"
@@ -50,7 +54,7 @@ Ignore == UNCHANGED bvars /\ UNCHANGED rej
 OnScn(ev) ==
   /\ scn' = ev
   /\ cls' = ev.cls /\ status' = "NotBuilt" /\ applied' = FALSE /\ omitSNI' = FALSE /\ pending' = {}
-  /\ raw' = NoSer /\ rebuilt' = NoSer /\ wire' = <<>> /\ hrrSeen' = FALSE /\ phase' = "edit"
+  /\ raw' = NoSer /\ rebuilt' = NoSer /\ wire' = <<>> /\ sent' = <<>> /\ hrrSeen' = FALSE /\ phase' = "edit"
   /\ rej' = rej \cup (IF scn.sc >= 0 /\ phase \notin {"done", "failed"} THEN {<<scn.sc, "order", "no-result">>} ELSE {})
   /\ Bump({"scn"})
 
@@ -102,8 +106,9 @@ IsCH(ev) == Len(ev.head) = 4 /\ ev.head[1] = 1 /\ RdU24(ev.head, 2) + 4 = ev.n
 OnRec(ev) ==
   /\ UNCHANGED scn
   /\ IF ~IsCH(ev) THEN Ignore /\ UNCHANGED stats
-     ELSE IF phase = "start" THEN SendCH1(S(ev.sha, BadHello)) /\ Judge /\ Bump({"ch1"})
-     ELSE IF phase = "hrr" THEN SendCH2(S(ev.sha, BadHello), S(ev.sha, BadHello)) /\ Judge /\ Bump({"ch2"})
+     ELSE IF atsend = NoSer THEN Reject("binding", "hello-record-without-AtSend") /\ UNCHANGED stats
+     ELSE IF phase = "start" THEN SendCH1(atsend, S(ev.sha, BadHello)) /\ Judge /\ Bump({"ch1"})
+     ELSE IF phase = "hrr" THEN SendCH2(atsend, S(ev.sha, BadHello)) /\ Judge /\ Bump({"ch2"})
      ELSE Reject("order", IF phase = "edit" THEN "hello-written-without-rebuild" ELSE "hello-written-unasked") /\ UNCHANGED stats
 
 \* ---- SH: ServerHRR / ServerHello
@@ -129,12 +134,16 @@ OnDone(ev) ==
 Step == /\ l <= Len(Trace)
         /\ l' = l + 1
         /\ LET ev == Trace[l] IN
+           atsend' = IF ev.ev = "AtSend" THEN S(ev.sha, BadHello)
+                     ELSE IF ev.ev = "Scn" \/ (ev.ev = "Rec" /\ IsCH(ev)) THEN NoSer ELSE atsend
+        /\ LET ev == Trace[l] IN
            CASE ev.ev = "Scn" -> OnScn(ev)
              [] ev.ev = "Call" -> OnCall(ev)
              [] ev.ev = "Rebuilt" -> OnRebuilt(ev)
              [] ev.ev = "Rec" -> OnRec(ev)
              [] ev.ev = "SH" -> OnSH(ev)
              [] ev.ev = "Done" -> OnDone(ev)
+             [] ev.ev = "AtSend" -> Ignore /\ UNCHANGED <<scn, stats>>
              [] ev.ev = "Seed" -> Ignore /\ UNCHANGED scn /\ Bump(IF ev.cerr = "" THEN {"seeded"} ELSE {})   \* the earlier connection that filled the session cache
              [] OTHER -> Reject("binding", "unknown-event") /\ UNCHANGED <<scn, stats>>
 Next == Step
